@@ -22,11 +22,17 @@ def readlinesLF : List Char → List (List Char) :=
 
 /-- `open(path, newline="").readlines()`: universal line boundaries, terminators kept -/
 def readlinesUniversal : List Char → List (List Char) :=
-  let rec go : List Char → List Char → List (List Char)
-    | [], cur => if cur.isEmpty then [] else [cur.reverse]
-    | '\r' :: '\n' :: cs, cur => ('\n' :: '\r' :: cur).reverse :: go cs []
-    | c :: cs, cur => if c == '\n' || c == '\r' then (c :: cur).reverse :: go cs [] else go cs (c :: cur)
-  fun s => go s []
+  -- `pendingCR`: the current line ends with a carriage return that a following line feed would join
+  let rec go : List Char → List Char → Bool → List (List Char)
+    | [], cur, _ => if cur.isEmpty then [] else [cur.reverse]
+    | c :: cs, cur, true =>
+      if c == '\n' then ('\n' :: cur).reverse :: go cs [] false
+      else cur.reverse :: (if c == '\r' then go cs ['\r'] true else go cs [c] false)
+    | c :: cs, cur, false =>
+      if c == '\r' then go cs ('\r' :: cur) true
+      else if c == '\n' then (c :: cur).reverse :: go cs [] false
+      else go cs (c :: cur) false
+  fun s => go s [] false
 
 structure SecretCfg where
   groups : List (List ((Re × Option Nat × Option Nat) × String))
